@@ -361,8 +361,8 @@ namespace verif
                         record_violations(idx, op);
                         continue;
                     }
-                    if (T().outcome == "dead")
-                        continue; // op ended the history (e.g. contained abort of a legal op is a violation; "dead" = harness chose not to extend)
+                    if (T().terminal)
+                        continue; // the operation ends the history (e.g. a deliberately invalid call that was reported)
                     auto k = key();
                     if (seen.insert(k).second)
                     {
